@@ -71,7 +71,7 @@ class TComp(fm.TimeComponent):
     def _initialize(self):
         self.calls.append("I")
         for i, _ in enumerate(self.spec["inputs"]):
-            self.inputs.add(name=f"i{i}", time=self.time, grid=fm.NoGrid(), units="")
+            self.inputs.add(name=f"i{i}", time=self.time, grid=fm.NoGrid(), units=None)
         for o in range(self.spec["nout"]):
             self.outputs.add(name=f"o{o}", time=self.time, grid=fm.NoGrid(), units="")
         pull = [f"i{i}" for i, _ in enumerate(self.spec["inputs"])] if self.spec.get("initpull") else []
@@ -117,7 +117,7 @@ class PComp(fm.Component):
     def _initialize(self):
         self.calls.append("I")
         for i, _ in enumerate(self.spec["inputs"]):
-            self.inputs.add(name=f"i{i}", time=None, grid=fm.NoGrid(), units="")
+            self.inputs.add(name=f"i{i}", time=None, grid=fm.NoGrid(), units=None)
         for o in range(self.spec["nout"]):
             self.outputs.add(
                 fm.CallbackOutput(callback=(lambda caller, time, o=o: self._get(o, time)), name=f"o{o}",
